@@ -798,3 +798,97 @@ class IterMarkup(Contract):
 
 
 CONTRACTS.append(IterMarkup())
+
+
+# ------------------------------------------------------------------------------------------- BodyMarkuper._eat_start_boundary
+class EatStartBoundary(Contract):
+    """the first section eater (until the opening delimiter has been found).  A multipart body may begin with the boundary line
+    itself ("--boundary", no CRLF before it) or with a preamble / CRLF.  With _eat_data (the delimiter search: bounded only) as
+    callee:
+      * no byte available: None, nothing changes;
+      * a pending expectation (the boundary was begun in an earlier read): the search continues in _eat_data, nothing else;
+      * first byte CR: ordinary delimiter search from here (_eat_data), no expectation set;
+      * the chunk begins with the whole boundary: the section ends 2 bytes (the CRLF that is not there) before `base`;
+      * first byte is the boundary's first byte ('-') but the boundary is not complete in this chunk (a short first read - one
+        byte is enough): the WHOLE boundary is carried as the expectation and _eat_data decides; no error;
+      * any other first byte: InvalidBoundaryError.
+    Whatever _eat_data returns is returned unchanged."""
+    props = ('C06',)
+    file = 'ombott/request_pkg/multipart.py'
+    qualname = 'BodyMarkuper._eat_start_boundary'
+    assumptions = ('called at the beginning of the body: base == 0 (iter_markup enters the first eater at start_next_sec == 0 of every chunk until it '
+                   'has returned a position)', 'boundary == b"--" + <boundary parameter>, so its first byte is "-"; callee _eat_data: bounded only')
+    expected_labels = ('start.no_byte_no_change', 'start.pending_expectation_continues_the_search', 'start.cr_starts_an_ordinary_search',
+                       'start.whole_boundary_ends_two_before_base', 'start.partial_boundary_is_carried_not_refused',
+                       'start.other_first_byte_is_refused', 'start.result_of_the_search_is_returned_unchanged')
+
+    def pre(self, X):
+        g = X.globals
+        self.Invalid = g['InvalidBoundaryError']
+        self.chunk = X.fresh(BytesSort, 'chunk')
+        self.base = z3.IntVal(0)
+        self.bparam = X.fresh(BytesSort, 'boundary_parameter')
+        self.boundary = z3.Concat(HYHY, self.bparam)
+        self.pending = X.choose(2, 'expectation pending from an earlier read?') == 1
+        self.trest0 = VBytes(X.fresh(BytesSort, 'trest')) if self.pending else NONE
+        self.calls = []
+        c = self
+
+        def eat_data(X, args, kwargs):
+            c.calls.append((args, c.me.fields['trest'], c.me.fields['trest_len']))
+            if X.choose(2, '_eat_data: None | position') == 0:
+                c.result = NONE
+            else:
+                c.result = VInt(X.fresh(z3.IntSort(), 'data_end'))
+            return c.result
+        self.result = None
+        self.me = VObj('BM', {'trest': self.trest0, 'trest_len': VInt(L(self.trest0.t)) if self.pending else NONE,
+                              'boundary': VBytes(self.boundary), '_eat_data': VFunc(lambda X, a, k: eat_data(X, a, k), '_eat_data')})
+        return {'self': self.me, 'chunk': VBytes(self.chunk), 'base': VInt(self.base)}
+
+    def _unchanged(self):
+        return self.me.fields['trest'] is self.trest0
+
+    def _case(self):
+        ch = self.chunk
+        empty = L(ch) == 0
+        first = z3.SubSeq(ch, 0, 1)
+        return empty, first
+
+    def post(self, X, ret):
+        empty, first = self._case()
+        whole = z3.PrefixOf(self.boundary, self.chunk)
+        if self.calls:
+            args, tr, tl = self.calls[0]
+            X.prove('start.result_of_the_search_is_returned_unchanged',
+                    z3.BoolVal(len(self.calls) == 1 and ret is self.result and len(args) == 2 and isinstance(args[1], VInt))
+                    if True else z3.BoolVal(False))
+            if isinstance(args[1], VInt):
+                X.prove('start.search_starts_at_base', args[1].t == self.base)
+            if self.pending:
+                X.prove('start.pending_expectation_continues_the_search', z3.BoolVal(tr is self.trest0))
+            elif isinstance(tr, VNone):
+                X.prove('start.cr_starts_an_ordinary_search', z3.And(z3.Not(empty), first == CR))
+            else:
+                # a new expectation was set: only for a first byte '-' when the whole boundary is not at the start, and it is the whole boundary
+                ok = isinstance(tr, VBytes) and isinstance(tl, VInt)
+                X.prove('start.partial_boundary_is_carried_not_refused',
+                        z3.And(z3.Not(empty), first == HY, z3.Not(whole), tr.t == self.boundary, tl.t == L(self.boundary))
+                        if ok else z3.BoolVal(False))
+            return
+        # no search
+        if isinstance(ret, VNone):
+            X.prove('start.no_byte_no_change', z3.And(empty, z3.BoolVal(self._unchanged() and not self.pending)))
+        else:
+            X.prove('start.whole_boundary_ends_two_before_base',
+                    z3.And(whole, ret.t == self.base - 2, z3.BoolVal(self._unchanged() and not self.pending)) if isinstance(ret, VInt)
+                    else z3.BoolVal(False))
+
+    def post_raise(self, X, exc):
+        empty, first = self._case()
+        X.prove('start.other_first_byte_is_refused',
+                z3.And(z3.BoolVal(exc.pyclass is self.Invalid and not self.pending and not self.calls), z3.Not(empty),
+                       first != CR, first != HY))
+
+
+CONTRACTS.append(EatStartBoundary())
